@@ -89,7 +89,17 @@ impl Method for PhoneticMethod {
         data: &Data,
         config: &Config,
     ) -> Suggestion {
-        let character = keycode_to_char(key);
+        let character = match keycode_to_char(key) {
+            Some(character) => character,
+            None => {
+                // Not a character key, so nothing changes.
+                return if self.buffer.is_empty() {
+                    Suggestion::empty()
+                } else {
+                    self.create_suggestion(data, config)
+                };
+            }
+        };
         self.buffer.push(character);
         let mut suggestion = self.create_suggestion(data, config);
 
